@@ -30,6 +30,12 @@ type CallSpec struct {
 	Plugin string `json:"plugin"` // plugin the generator intends (decides the wrapper's shape)
 	Name   string `json:"name"`   // identifier at the call site
 	Type   int    `json:"type"`   // index into Case.Types
+	Arity  int    `json:"arity"`  // number of arguments (all of type Type): 1 = curried form of equal/compare, tuple of one
+}
+
+// Call builds a call with the usual arity of the plugin.
+func Call(plugin, name string, typ int) CallSpec {
+	return CallSpec{Plugin: plugin, Name: name, Type: typ, Arity: arity(plugin)}
 }
 
 type FileSpec struct {
@@ -76,7 +82,8 @@ type Case struct {
 	Plugins      []PluginSpec `json:"plugins"`       // all plugins of main.go, registration order, effective prefixes
 	GoderiveArgs []string     `json:"goderive_args"` // -prefix / -pluginprefix
 	Files        []FileSpec   `json:"files"`
-	Reserved     []string     `json:"reserved"` // user functions defined in OtherFile and called there
+	Reserved     []string     `json:"reserved"` // identifiers declared in OtherFile and called there
+	ReservedForm []string     `json:"reserved_form,omitempty"` // per reserved name: func | var (func-typed variable) | type (conversion); default func
 	OtherFile    string       `json:"other_file"`
 	Variants     []Variant    `json:"variants"`
 	KeepDerived  bool         `json:"keep_derived,omitempty"`
@@ -105,6 +112,8 @@ func kindOf(plugin string) string {
 		return "equal" // one or two arguments, two must be identical
 	case "hash", "clone", "keys", "sort", "unique", "set", "gostring":
 		return "one"
+	case "tuple":
+		return "some" // at least one argument
 	case "deepcopy":
 		return "two"
 	}
@@ -152,9 +161,23 @@ func wrapper(i int, c CallSpec, t TypeSpec) string {
 	f := fmt.Sprintf("Wrap%d", i)
 	switch c.Plugin {
 	case "equal":
+		if c.Arity == 1 {
+			return fmt.Sprintf("func %s(a %s) func(%s) bool { return %s(a) }\n", f, t.Go, t.Go, c.Name)
+		}
 		return fmt.Sprintf("func %s(a, b %s) bool { return %s(a, b) }\n", f, t.Go, c.Name)
 	case "compare":
+		if c.Arity == 1 {
+			return fmt.Sprintf("func %s(a %s) func(%s) int { return %s(a) }\n", f, t.Go, t.Go, c.Name)
+		}
 		return fmt.Sprintf("func %s(a, b %s) int { return %s(a, b) }\n", f, t.Go, c.Name)
+	case "tuple":
+		if c.Arity == 1 {
+			return fmt.Sprintf("func %s(a %s) func() %s { return %s(a) }\n", f, t.Go, t.Go, c.Name)
+		}
+		return fmt.Sprintf("func %s(a, b %s) func() (%s, %s) { return %s(a, b) }\n", f, t.Go, t.Go, t.Go, c.Name)
+	case "set":
+		// t is a slice type []E with comparable E
+		return fmt.Sprintf("func %s(a %s) map[%s]struct{} { return %s(a) }\n", f, t.Go, t.Go[2:], c.Name)
 	case "hash":
 		return fmt.Sprintf("func %s(a %s) uint64 { return %s(a) }\n", f, t.Go, c.Name)
 	case "deepcopy":
@@ -205,12 +228,29 @@ func (c *Case) Sources() map[string]string {
 	if len(c.Reserved) > 0 {
 		var sb strings.Builder
 		sb.WriteString("package p\n\n")
-		for _, r := range c.Reserved {
-			fmt.Fprintf(&sb, "func %s(a, b int) int { return a + b }\n\n", r)
+		form := func(i int) string {
+			if i < len(c.ReservedForm) {
+				return c.ReservedForm[i]
+			}
+			return "func"
+		}
+		for i, r := range c.Reserved {
+			switch form(i) {
+			case "var": // a package-level variable of function type, called like a function
+				fmt.Fprintf(&sb, "var %s = func(a, b int) int { return a + b }\n\n", r)
+			case "type": // a declared type, "called" as a conversion
+				fmt.Fprintf(&sb, "type %s int\n\n", r)
+			default:
+				fmt.Fprintf(&sb, "func %s(a, b int) int { return a + b }\n\n", r)
+			}
 		}
 		sb.WriteString("func useReserved() int {\n\tn := 0\n")
-		for _, r := range c.Reserved {
-			fmt.Fprintf(&sb, "\tn += %s(1, 2)\n", r)
+		for i, r := range c.Reserved {
+			if form(i) == "type" {
+				fmt.Fprintf(&sb, "\tn += int(%s(3))\n", r)
+			} else {
+				fmt.Fprintf(&sb, "\tn += %s(1, 2)\n", r)
+			}
 		}
 		sb.WriteString("\treturn n\n}\n")
 		out[c.OtherFile] = gofmt(sb.String())
@@ -247,7 +287,7 @@ func (c *Case) pluginKind(name string) string {
 // arity of the wrapper's call for a plugin
 func arity(plugin string) int {
 	switch plugin {
-	case "equal", "compare", "deepcopy":
+	case "equal", "compare", "deepcopy", "tuple":
 		return 2
 	}
 	return 1
@@ -278,7 +318,11 @@ func (c *Case) ModelLine(id string, v Variant) string {
 		sb.WriteString(" (file")
 		for _, call := range f.Calls {
 			fmt.Fprintf(&sb, " (call %s", Esc(call.Name))
-			for k := 0; k < arity(call.Plugin); k++ {
+			n := call.Arity
+			if n == 0 {
+				n = arity(call.Plugin)
+			}
+			for k := 0; k < n; k++ {
 				sb.WriteString(" " + c.Types[call.Type].Wire)
 			}
 			sb.WriteString(")")
